@@ -1,7 +1,7 @@
 (* driver for the C04 model.  One cell of the matrix per line:
      <op> <reason> <event> <order> <deadline 0|1> <status> <variant>
-   op sr|sm|en|ri|rm|rt|ca|ax   reason paused|window|slot|silent   event rst|goaway|garbage|lost|close|serr
-   order before|during   status none|h503|tonly<k>|trailers<k>   variant base|implicit|after_headers
+   op sr|sm|en|ri|rm|rt|ca|ax|cl.uu|cl.us|cl.su|cl.ss   reason paused|window|slot|silent   event rst|goaway|garbage|lost|close|serr
+   order before|during   status none|h503|h200|h200m|tonly<k>|trailers<k>   variant base|implicit|after_headers
    Answer: what Model/Termination.predict computes for the cell on the generated client operations:
      setup=.. blocked=<site|no> registered=0|1 werr=<class> op=<class> ctx=<class> late=<class>
      inpaths=0|1 missed=0|1
@@ -11,7 +11,8 @@
      setup=.. during=<class,..|-> after=<class,..|-> inpaths=0|1 *)
 let op_of = function
   | "sr" -> KSr | "sm" -> KSm | "en" -> KEn | "ri" -> KRi | "rm" -> KRm | "rt" -> KRt | "ca" -> KCa
-  | "ax" -> KAx | _ -> failwith "op"
+  | "ax" -> KAx | "cl.uu" | "cl.us" -> KCall false | "cl.su" | "cl.ss" -> KCall true
+  | _ -> failwith "op"
 let reason_of = function
   | "paused" -> RPaused | "window" -> RWindow | "slot" -> RSlot | "silent" -> RSilent
   | _ -> failwith "reason"
@@ -22,6 +23,7 @@ let starts_with p s = String.length s >= String.length p && String.sub s 0 (Stri
 let tail p s = String.sub s (String.length p) (String.length s - String.length p)
 let status_of s =
   if s = "none" then StNone else if s = "h503" then StH503
+  else if s = "h200" then StH200 else if s = "h200m" then StH200Msg
   else if starts_with "tonly" s then StTonly (z_of_int (int_of_string (tail "tonly" s)))
   else if starts_with "trailers" s then StTrailers (z_of_int (int_of_string (tail "trailers" s)))
   else failwith "status"
